@@ -312,6 +312,12 @@ package wal
 //@ func wal.Clear
 //@ property C09
 //@ requires walMetrics(t) && t.currentSegment != nil && t.readOnlySegments != nil && t.ctx != nil && t.segmentSize <= 2147483647
+//@ ensures result == nil ==> walInv(t) && t.lastAppendedOffset.v == -1 && t.lastSyncedOffset.v == -1 && t.firstOffset.v == -1
+//@ modifies fields(wal), fields(readWriteSegment), fields(readOnlySegmentsGroup), fields(readOnlySegment), fields(segmentConfig), fields(uint8), ghset(keys, as(t.readOnlySegments, *readOnlySegmentsGroup).allSegments), ghset(keys, as(t.readOnlySegments, *readOnlySegmentsGroup).openSegments)
+
+//@ func wal.clearWithoutLock(t, currentSegmentClosed) (result)
+//@ property C09
+//@ requires walMetrics(t) && t.currentSegment != nil && t.readOnlySegments != nil && t.ctx != nil && t.segmentSize <= 2147483647
 //@ assume at call newReadWriteSegment#0: result1 == nil ==> as(result0, *readWriteSegment).lastOffset == baseOffset - 1 because "the WAL directory was just removed: the new segment 0 is empty"
 //@ ensures result == nil ==> walInv(t) && t.lastAppendedOffset.v == -1 && t.lastSyncedOffset.v == -1 && t.firstOffset.v == -1
 //@ modifies fields(wal), fields(readWriteSegment), fields(readOnlySegmentsGroup), fields(readOnlySegment), fields(segmentConfig), fields(uint8), ghset(keys, as(t.readOnlySegments, *readOnlySegmentsGroup).allSegments), ghset(keys, as(t.readOnlySegments, *readOnlySegmentsGroup).openSegments)
